@@ -635,7 +635,9 @@ def make_programs(ctx, extended=False):
         m.append(("orderBy", [(("col", names[0]), True, True)]))
         if extended:
             # direction given through the `ascending` argument (bare names): every key descending / mixed flags
-            m.append(("orderByFlags", [(c, False) for c in names], "scalar"))
+            # (thorough tier, triples: only the mixed form, to stay inside the time envelope)
+            if ctx.tier == "quick":
+                m.append(("orderByFlags", [(c, False) for c in names], "scalar"))
             m.append(("orderByFlags", [(c, i % 2 == 1) for i, c in enumerate(reversed(names))], "list"))
         m.append(("limit", 2))
         m.append(("limit", 4))
@@ -671,7 +673,7 @@ def make_programs(ctx, extended=False):
 
     expand([], cols0, 2 if ctx.tier == "quick" else 3)
     n_exh = len(progs)
-    n_rand = 260 if ctx.tier == "quick" else 3000
+    n_rand = 260 if ctx.tier == "quick" else (2300 if extended else 3000)
     maxlen = 6 if ctx.tier == "quick" else 10
     for _ in range(n_rand):
         cols = dict(cols0)
